@@ -60,6 +60,11 @@ TRAINED = {
 }
 
 
+SEPARATE_GROUPS_OK = {
+    f'{DEBUG}:Sniff.compose': 'the apply-mode and train-mode captors are independent sinks, each with its own captured value',
+}
+
+
 def _atoms(text: str, pol: bool = True) -> list[tuple[str, bool]]:
     """Conjunctive atoms of a guard text with their polarity (``not`` peeled; a negated conjunction is kept whole)."""
     try:
@@ -209,6 +214,18 @@ def operators(ctx) -> None:
             have[b] = have.get(b, 0) + 1
         for b, cnt in TRAINED.get(fn.ref, {}).items():
             ctx.check(have.get(b, 0) >= cnt, 'C03.T6', fn, f'the worker group built from `{b}` is trained ({have.get(b, 0)} trainer site(s), {cnt} confirmed on the pinned tree)', fn.node, key=f'T6:{b}')
+        # T7: one worker group per builder: state is shared by the forks of ONE group - two Worker(builder, ...) constructions
+        # of the same builder are two unrelated groups (the second never sees what the first was trained to)
+        byb = {}
+        for w in it.workers:
+            byb.setdefault(w.group.builder, {})[id(w.group.node)] = w.group  # one entry per construction *site* (an inlined helper re-uses its site)
+        for b, gs in byb.items():
+            if len(gs) > 1:
+                if fn.ref in SEPARATE_GROUPS_OK:
+                    ctx.ok('C03.T7', fn, f'`{b}` builds {len(gs)} separate groups: {SEPARATE_GROUPS_OK[fn.ref]}', fn.node)
+                else:
+                    g2 = list(gs.values())[1]
+                    ctx.fail('C03.T7', fn, f'the builder `{b}` is instantiated as {len(gs)} separate worker groups: the appliers of the train and apply paths must be forks of one group to share the trained state', g2.node, key=f'T7:{b}')
         # T5: no dangling input - a worker whose output is consumed (or that is handed to extend/use/Trunk) has every input fed
         nconn += connected(ctx, fn, it, R)
         # sharing: a segment of an expanded trunk is subscribed at most once
@@ -292,6 +309,18 @@ def primitives(ctx) -> None:
             ok = pub == f'get({o})[{i}]' and sub == f'get({s}.node)[{s}.port]'
     ctx.check(ok, 'C03.copy', tc, 'the copy connects output port i of the copied publisher to the subscriber\'s own input port (get(o)[i] -> get(s.node)[s.port])', gen or tc.node, key='Traversal.copy:ports')
     ctx.check('copies.get(node) or copies.setdefault(node, node.fork())' in core.src(tc.node), 'C03.copy', tc, 'copied nodes are forks (same group => same state) created once per node', tc.node, key='Traversal.copy:fork')
+    # the path enumeration is complete: every path from the pivot to the tail is yielded - no pruning of nodes already met on
+    # another path (a path reaching an explored node still contributes its own prefix to the copy)
+    sg = tc.nested('segments')
+    t = sg.param_names[0]
+    hit = (f'{t}.pivot == tail', True)
+    shared.stmt_under(ctx, 'C03.copy', sg, f'yield {t}', [hit], 'a traversal that reached the tail is one path of the copy', 'segments:yield', siblings=False)
+    rec = [x for x in core.walk_local(sg.node) if isinstance(x, ast.Expr) and isinstance(x.value, ast.YieldFrom)]
+    okr = len(rec) == 1 and cfg.cguards(rec[0], sg.node) == [(hit[0], False)]
+    if okr:
+        loop = next((a for a in core.ancestors(rec[0]) if isinstance(a, ast.For)), None)
+        okr = loop is not None and core.src(loop.iter) == f'{t}.mappers(tail)' and core.src(rec[0].value.value) == f'segments({core.src(loop.target)})'
+    ctx.check(okr, 'C03.copy', sg, 'otherwise the enumeration descends into *every* mapper towards the tail, unconditionally', rec[0] if rec else sg.node, key='segments:descend')
 
 
 def segment_extend(ctx, se: core.FuncInfo) -> None:
